@@ -4,15 +4,20 @@ package main
 import (
 	"fmt"
 	"math/big"
+	"os"
+	"path/filepath"
 	"strconv"
 	"strings"
 	"time"
 
 	"elaverif/harness/hx"
+	"elaverif/harness/regnet"
 
 	"github.com/elastos/Elastos.ELA/auxpow"
 	"github.com/elastos/Elastos.ELA/blockchain"
+	"github.com/elastos/Elastos.ELA/common"
 	"github.com/elastos/Elastos.ELA/common/config"
+	"github.com/elastos/Elastos.ELA/core"
 	ctypes "github.com/elastos/Elastos.ELA/core/types/common"
 )
 
@@ -71,8 +76,103 @@ func isCanonical(c uint32) bool {
 	return true
 }
 
+func parseNodes(s string) (ts, bits []uint32) {
+	for _, x := range strings.Split(s, ",") {
+		p := strings.Split(x, ":")
+		ts = append(ts, uint32(mustI(p[0])))
+		bits = append(bits, u32hex(p[1]))
+	}
+	return
+}
+
+func powParams(t []string) *config.Configuration {
+	return &config.Configuration{PowConfiguration: config.PowConfiguration{
+		PowLimit:           bigOf(t[3]),
+		PowLimitBits:       u32hex(t[4]),
+		TargetTimespan:     time.Duration(mustI(t[1])) * time.Second,
+		TargetTimePerBlock: time.Duration(mustI(t[2])) * time.Second,
+		AdjustmentFactor:   mustI(t[0]),
+	}}
+}
+
+var nodeSeq int
+
+// node <genesisTs>:<genesisBits> (<delta>/<tamper>)… : a real regnet node in retarget mode
+// (PowLimitBits 0x2000ffff, 10 s window, 1 s blocks: a retarget every 10 blocks). Every step
+// mines a block `delta` seconds after the tip with the bits the rule demands plus `tamper`
+// and hands it to the real BlockChain.ProcessBlock.
+func execNode(t []string) string {
+	gts, gbits := parseNodes(t[1])
+	nodeSeq++
+	base := os.Getenv("TMPDIR")
+	if base == "" {
+		base = "/var/tmp"
+	}
+	dir := filepath.Join(base, fmt.Sprintf("c09-%d-%d", os.Getpid(), nodeSeq))
+	os.RemoveAll(dir)
+	defer os.RemoveAll(dir)
+	n, err := regnet.NewNode(dir, regnet.Options{NoPoolEvents: true, Tweak: func(p *config.Configuration) {
+		p.PowConfiguration.PowLimitBits = 0x2000ffff
+		p.PowConfiguration.TargetTimespan = 10 * time.Second
+		p.PowConfiguration.TargetTimePerBlock = 1 * time.Second
+	}})
+	if err != nil {
+		panic("harness: new node: " + err.Error())
+	}
+	defer n.Close()
+	if n.Genesis.Timestamp != gts[0] || n.Genesis.Bits != gbits[0] {
+		panic(fmt.Sprintf("harness: genesis is %d:%x", n.Genesis.Timestamp, n.Genesis.Bits))
+	}
+	tip := n.Genesis
+	var parts []string
+	for _, x := range t[2:] {
+		p := strings.Split(x, "/")
+		delta, tamper := uint32(mustI(p[0])), mustI(p[1])
+		ts := tip.Timestamp + delta
+		b, err := n.Mine(tip, nil, regnet.MineOpts{Timestamp: ts})
+		if err != nil {
+			panic("harness: mine: " + err.Error())
+		}
+		if tamper != 0 {
+			spec, err := regnet.ParseBlock(strings.Fields(n.Describe(b)))
+			if err != nil {
+				panic("harness: respec: " + err.Error())
+			}
+			spec.TS = ts
+			spec.Bits = uint32(int64(b.Bits) + tamper)
+			if b, err = n.Build(spec, false); err != nil {
+				panic("harness: rebuild: " + err.Error())
+			}
+		}
+		in, _, _ := n.Deliver(b)
+		acc := "0"
+		if th, _ := n.Tip(); in && th == b.Hash() {
+			acc = "1"
+			tip = b
+		}
+		parts = append(parts, fmt.Sprintf("%x:%s", b.Bits, acc))
+	}
+	return strings.Join(parts, " ") + " d=" + n.Chain.CalcCurrentDifficulty(tip.Bits) + " h=" + n.Chain.GetNetworkHashPS().String()
+}
+
 func exec(t []string) string {
 	switch t[0] {
+	case "node":
+		return execNode(t)
+	case "walk": // walk <adj> <targetSpan> <perBlock> <limit> <limitBits> <tipHeight> <ts:bits,…>
+		ts, bits := parseNodes(t[7])
+		r, err := blockchain.VerifRetargetChain(powParams(t[1:6]), uint32(mustI(t[6])), ts, bits)
+		if err != nil {
+			return "err"
+		}
+		return fmt.Sprintf("%x", r)
+	case "hashps": // hashps <tipHeight> <ts:bits,…>
+		ts, bits := parseNodes(t[2])
+		return blockchain.VerifNetworkHashPS(uint32(mustI(t[1])), ts, bits).String()
+	case "curdiff": // curdiff <limitBits> <bits>
+		return blockchain.VerifCurrentDifficulty(&config.Configuration{PowConfiguration: config.PowConfiguration{
+			PowLimit: big.NewInt(1), PowLimitBits: u32hex(t[1]), TargetTimespan: 10 * time.Second,
+			TargetTimePerBlock: time.Second, AdjustmentFactor: 4}}, u32hex(t[2]))
 	case "rt": // rt <compact>: BigToCompact(CompactToBig(c)) and whether c is canonical
 		c := u32hex(t[1])
 		tag := "non"
@@ -312,11 +412,173 @@ func gen(g *hx.Gen) {
 		}
 		g.Emit("retarget %d %d %d %s %x %x %d %d %d", adj, ts, per, lim.String(), limBits, bits, prevHeight, firstTs, prevTs)
 	}
+	genChains(g, limits)
+}
+
+func fmtNodes(ts, bits []uint32) string {
+	p := make([]string, len(ts))
+	for i := range ts {
+		p[i] = fmt.Sprintf("%d:%x", ts[i], bits[i])
+	}
+	return strings.Join(p, ",")
+}
+
+// real node chains: the retarget walk with individually chosen timestamps, the hash-rate window,
+// the difficulty ratio, and whole chains validated by a node.
+func genChains(g *hx.Gen, limits []*big.Int) {
+	r := g.R
+	n := g.N(40000, 2000000)
+	for i := 0; i < n/40; i++ {
+		adj := int64(1 + r.Intn(8))
+		per := int64(1 + r.Intn(60))
+		blocks := int64(2 + r.Intn(30))
+		ts := per * blocks
+		if ts/adj == 0 {
+			continue
+		}
+		lim := limits[r.Intn(len(limits))]
+		k := uint32(1 + r.Intn(3))
+		tipHeight := k*uint32(blocks) - 1
+		if r.Chance(10) {
+			tipHeight += uint32(1 + r.Intn(3))
+		}
+		L := int(blocks) + r.Intn(int(blocks)+3) // at least the retarget window, often more
+		if L > int(tipHeight)+1 {
+			L = int(tipHeight) + 1
+		}
+		if L < int(blocks) {
+			continue
+		}
+		tss := make([]uint32, L)
+		bs := make([]uint32, L)
+		t0 := uint32(1500000000 + r.Intn(1000000))
+		bits := blockchain.BigToCompact(new(big.Int).Rsh(lim, uint(r.Intn(64))))
+		for j := range tss {
+			// mostly increasing, sometimes jumping back (timestamps only have to beat the median)
+			t0 += uint32(r.Intn(int(2*per) + 1))
+			if r.Chance(8) {
+				t0 -= uint32(r.Intn(int(3*per) + 1))
+			}
+			tss[j] = t0
+			bs[j] = bits
+			if r.Chance(5) {
+				bs[j] = genCompact(r) &^ 0x00800000
+			}
+		}
+		g.Emit("walk %d %d %d %s %x %d %s", adj, ts, per, lim.String(), 0x1f0008ff, tipHeight, fmtNodes(tss, bs))
+	}
+	for i := 0; i < n/40; i++ {
+		L := 1 + r.Intn(140)
+		if r.Chance(30) {
+			L = 118 + r.Intn(6)
+		}
+		tipHeight := uint32(L - 1 + r.Intn(3)*r.Intn(200))
+		if r.Chance(20) {
+			tipHeight = uint32(L - 1)
+		}
+		tss := make([]uint32, L)
+		bs := make([]uint32, L)
+		t0 := uint32(1500000000)
+		for j := range tss {
+			switch r.Intn(6) {
+			case 0:
+			case 1:
+				t0 -= uint32(r.Intn(50))
+			default:
+				t0 += uint32(r.Intn(240))
+			}
+			tss[j] = t0
+			bs[j] = []uint32{0x1f0008ff, 0x1d00ffff, 0x207fffff, 0x1b0404cb}[r.Intn(4)]
+			if r.Chance(5) {
+				bs[j] = genCompact(r)
+			}
+		}
+		if r.Chance(5) {
+			for j := range tss {
+				tss[j] = 1500000000
+			}
+		}
+		g.Emit("hashps %d %s", tipHeight, fmtNodes(tss, bs))
+	}
+	for i := 0; i < n/40; i++ {
+		lb := []uint32{0x1f0008ff, 0x207fffff, 0x2000ffff}[r.Intn(3)]
+		g.Emit("curdiff %x %x", lb, genCompact(r))
+	}
+	// whole chains on a real node (retarget every 10 blocks)
+	gb := core.GenesisBlock(common.Uint168{})
+	for i := 0; i < g.N(6, 300); i++ {
+		L := 11 + r.Intn(25)
+		var steps []string
+		style := r.Intn(4)
+		for j := 0; j < L; j++ {
+			var d int
+			switch style {
+			case 0:
+				d = 1
+			case 1:
+				d = 1 + r.Intn(2)
+			case 2: // slow blocks: the target rises (and is capped)
+				d = 1 + r.Intn(12)
+			default:
+				d = 1 + r.Intn(4)
+			}
+			tamper := 0
+			if r.Chance(8) {
+				tamper = []int{1, -1, 256, -65536}[r.Intn(4)]
+			}
+			steps = append(steps, fmt.Sprintf("%d/%d", d, tamper))
+		}
+		g.Emit("node %d:%x %s", gb.Timestamp, gb.Bits, strings.Join(steps, " "))
+	}
 }
 
 // Property oracle, judged directly on the implementation's answers.
 func oracle(t []string, out string) *hx.Violation {
 	switch t[0] {
+	case "node":
+		// the node must take exactly the blocks whose bits are the retarget result (tamper 0)
+		if out == "panic" {
+			return nil
+		}
+		f := strings.Fields(out)
+		for i, x := range t[2:] {
+			tamper := strings.Split(x, "/")[1]
+			if i < len(f) && strings.HasSuffix(f[i], ":1") && tamper != "0" {
+				return &hx.Violation{Kind: "node-accepted-wrong-bits", Detail: fmt.Sprintf("block %d carries bits %s (retarget result %s) and was connected", i, strings.Split(f[i], ":")[0], tamper)}
+			}
+		}
+	case "walk":
+		// same bounds as for `retarget`, with the window start read off the chain: index len-blocks
+		if out == "err" || out == "panic" {
+			return nil
+		}
+		adj, tsp, per := mustI(t[1]), mustI(t[2]), mustI(t[3])
+		blocks := tsp / per
+		h := mustI(t[6])
+		tss, bs := parseNodes(t[7])
+		if h == 0 || (h+1)%blocks != 0 || int64(len(tss)) < blocks {
+			return nil
+		}
+		old := blockchain.CompactToBig(bs[len(bs)-1])
+		lim := bigOf(t[4])
+		if old.Sign() <= 0 || lim.BitLen() > 8*254 {
+			return nil
+		}
+		span := int64(tss[len(tss)-1] - tss[int64(len(tss))-blocks]) // uint32 subtraction, as the node does
+		if span < tsp/adj {
+			span = tsp / adj
+		} else if span > tsp*adj {
+			span = tsp * adj
+		}
+		want := new(big.Int).Mul(old, big.NewInt(span))
+		want.Div(want, big.NewInt(tsp))
+		if want.Cmp(lim) > 0 {
+			want.Set(lim)
+		}
+		nb := blockchain.CompactToBig(u32hex(out))
+		if nb.Cmp(want) > 0 || new(big.Int).Add(nb, new(big.Int).Rsh(nb, 15)).Cmp(want) < 0 {
+			return &hx.Violation{Kind: "retarget-window", Detail: fmt.Sprintf("new target %x is not old*clamp(span of the last %d blocks = %d s)/%d up to compaction", nb, blocks, span, tsp)}
+		}
 	case "rt":
 		// decoding a canonical value and re-encoding it is the identity
 		c := u32hex(t[1])
